@@ -30,6 +30,7 @@ type Exec struct {
 	Choices  []int // value of every choice point (sched points with >= 2 enabled, data points), in order
 	Ns       []int // number of alternatives at each of them
 	Kinds    []string
+	Enabled  [][]string // per choice point: the enabled goroutine ids in canonical order (nil at data points)
 }
 
 // Outcome folds the abnormal endings into the observation string.
@@ -60,6 +61,7 @@ type replayStrat struct {
 	ns     []int
 	ch     []int
 	kinds  []string
+	en     [][]string
 }
 
 func (r *replayStrat) next(n int, kind string) int {
@@ -81,10 +83,17 @@ func (r *replayStrat) PickSched(view []vsched.GView, enabled []string, lastClock
 	if len(enabled) == 1 {
 		return 0, false
 	}
+	r.en = append(r.en, append([]string(nil), enabled...))
 	return r.next(len(enabled), "sched"), false
 }
-func (r *replayStrat) PickData(n int, kind string) int          { return r.next(n, kind) }
+func (r *replayStrat) PickData(n int, kind string) int {
+	r.en = append(r.en, nil)
+	return r.next(n, kind)
+}
 func (r *replayStrat) Final(view []vsched.GView, lastClock int) {}
+
+// ClockFree: a choice-sequence replay never looks at vector clocks.
+func (r *replayStrat) ClockFree() bool { return true }
 
 // RunOnce executes body once, following the given choice sequence and answering 0 afterwards.
 func RunOnce(body func() string, prefix []int) *Exec {
@@ -92,7 +101,7 @@ func RunOnce(body func() string, prefix []int) *Exec {
 	var obs string
 	s := vsched.Run(func() { obs = body() }, r)
 	x := &Exec{Obs: obs, Deadlock: s.Deadlock, Leaked: s.Leaked, Blocked: s.Blocked, Cut: s.WasCut, Steps: s.Steps,
-		SchedPts: s.SchedPts, DataPts: s.DataPts, Collide: s.Collide, MaxEn: s.MaxEn, Choices: r.ch, Ns: r.ns, Kinds: r.kinds}
+		SchedPts: s.SchedPts, DataPts: s.DataPts, Collide: s.Collide, MaxEn: s.MaxEn, Choices: r.ch, Ns: r.ns, Kinds: r.kinds, Enabled: r.en}
 	if len(s.Panics) > 0 {
 		x.Panic = s.Panics[0]
 	}
@@ -182,14 +191,15 @@ func (st *Stats) Merge(o *Stats) {
 
 // Options bound an exploration.
 type Options struct {
-	MaxBound   int           // bounded mode: iterate d = 0..MaxBound
-	MaxExecs   int           // cap on executions (0 = none)
-	Deadline   time.Duration // cap on wall time (0 = none)
-	DataBudget int           // dpor mode: max non-default environment answers per execution (-1 = unlimited)
-	SchedOnly  bool          // bounded mode: deviations only at scheduling points
-	DataOnly   bool          // bounded mode: deviations only at environment choice points
-	Debug      bool          // dpor mode: print every execution's transition sequence and the backtrack sets
-	FullRace   bool          // dpor mode: textbook race detection (every pending operation against the whole history at every state)
+	MaxBound   int                                  // bounded mode: iterate d = 0..MaxBound
+	MaxExecs   int                                  // cap on executions (0 = none)
+	Deadline   time.Duration                        // cap on wall time (0 = none)
+	DataBudget int                                  // dpor mode: max non-default environment answers per execution (-1 = unlimited)
+	SchedOnly  bool                                 // bounded mode: deviations only at scheduling points
+	DataOnly   bool                                 // bounded mode: deviations only at environment choice points
+	Debug      bool                                 // dpor mode: print every execution's transition sequence and the backtrack sets
+	Allow      func(enabled []string, alt int) bool // bounded mode: restricts the deviations at scheduling points (nil = all)
+	FullRace   bool                                 // dpor mode: textbook race detection (every pending operation against the whole history at every state)
 }
 
 func deviations(ch []int) int {
@@ -243,6 +253,9 @@ func Bounded(body func() string, opt Options) *Stats {
 					continue
 				}
 				for alt := 1; alt < x.Ns[i]; alt++ {
+					if opt.Allow != nil && x.Kinds[i] == "sched" && !opt.Allow(x.Enabled[i], alt) {
+						continue
+					}
 					np := make([]int, i+1)
 					copy(np, x.Choices[:i])
 					np[i] = alt
